@@ -104,7 +104,9 @@ def rule_cpform(ctx: Ctx) -> List[Ob]:
                 continue       # stores the bound into x_cp: decided by SIGN / PIN
             body.append(s)
         K = Kernel(bindings={"mats.W[ibp, :]": Vec({"w": 1}), "grad[ibp]": Sc(gb), "x_cp[ibp] - x[ibp]": Sc(zb),
-                             "mats.theta": Sc(theta), "mats.invMfactors": Sc(0), "d[ibp]": Sc(S("d_b"))},
+                             "mats.theta": Sc(theta), "mats.invMfactors": Sc(0), "d[ibp]": Sc(S("d_b")),
+                             # the floor factor written in place (its value is F2FLOOR's business, here it is the symbol eps)
+                             "np.finfo(float).eps": Sc(eps), "np.finfo(np.float64).eps": Sc(eps), "sys.float_info.epsilon": Sc(eps)},
                    conds={"mats.use_factor": use, "delta_t_min < delta_t": False, "d[ibp] > 0": False, "d[ibp] < 0": False,
                           "d[ibp] != 0": False},
                    maps={"bmv": "M"}, ignore_stores={"d", "x_cp", "d[ibp]"})
@@ -163,10 +165,17 @@ def rule_cpform(ctx: Ctx) -> List[Ob]:
         rhs = rhs.value
     v = K.ev(rhs)
     ok, why = equal(v, Vec({"x": 1, "d": told + pos}))
-    okm = canon_in(mask_l, mask_r) and canon_in(mask_l, "t >= t_cur")
+    # the variables still free after the walk are exactly those whose direction component was not zeroed: a mask on the
+    # breakpoint values (`t >= t_cur`) also selects a variable FIXED at a breakpoint tied with t_cur and puts it back at x
+    # (finding 18)
+    STILL_FREE = ("d != 0", "d != 0.0", "0 != d", "0.0 != d", "~(d == 0)", "~(d == 0.0)", "np.nonzero(d)", "d.nonzero()", "np.flatnonzero(d)",
+                  "np.not_equal(d, 0)", "np.not_equal(d, 0.0)", "d.astype(bool)")
+    okm = canon_in(mask_l, mask_r) and canon_in(mask_l, *STILL_FREE)
     obs.append(ob("CPFORM", "remaining free variables move to x + t d along the path", f, st[0], ok and okm,
-                  f"x_cp[{mask_l}] = ({v})[{mask_r}]" + ("" if ok else f"; {why}") + ("" if okm else "; masks differ / not `t >= t_cur`"),
-                  construct="tail x_cp[t >= t_cur] = (x + t_old * d)[t >= t_cur]"))
+                  f"x_cp[{mask_l}] = ({v})[{mask_r}]" + ("" if ok else f"; {why}") +
+                  ("" if okm else "; masks differ / do not select exactly the variables whose direction component is non-zero "
+                                  "(a mask on t also selects a variable fixed at a tied breakpoint)"),
+                  construct="tail x_cp[d != 0] = (x + t_old * d)[d != 0]"))
     # ---------------- (d) loop control: segment length, counter, last segment
     tnext = sp.Symbol("t_next", real=True)
     after = []
